@@ -28,6 +28,13 @@ for pid in sys.argv[2:]:
                   "an application service) — while the most obvious direct use keeps working. Avoid the mechanisms in the "
                   "already-tried list below (shared empty buffers, memoised hashes, heap sift variants, counter wraps at "
                   "2^8/2^16 have been done); look for NEW mechanisms.\n\n")
+    if wave.isdigit() and int(wave) >= 6:
+        extra += ("And for this round: at least ONE of your three changes must only manifest on an ERROR or RECOVERY path "
+                  "(an exception raised by an application callback or handler, a refused/failed operation followed by a "
+                  "valid one on the same objects, a timeout followed by a late arrival, cleanup after an abort) or under a "
+                  "NON-DEFAULT GLOBAL SETTING / ENVIRONMENT that the library supports (bacpypes.settings flags such as "
+                  "route_aware, module debugging switched on via the `_debug` flags / bacpypes_debugging loggers, a "
+                  "non-UTC time zone, python -O) while the default path keeps working.\n\n")
     tried = []
     for m in sorted(glob.glob("/verif/seeded/%s-*/meta.json" % pid)):
         tried.append("- " + str(json.load(open(m)).get("summary", "")).replace("\n", " ")[:300])
